@@ -1,0 +1,435 @@
+//go:build verif
+
+package immutable
+
+// Verification hooks (build tag `verif` only). Nothing here changes the behaviour of the package;
+// the functions only READ the trie. They are used by the correspondence harness of the formal
+// verification framework (properties C03/C04): a canonical dump and a structural digest of the real
+// trie (compared with the Lean model), a walker for the structural invariants and a census of the
+// node kinds reached.
+
+import (
+	"fmt"
+	"math/bits"
+	"strconv"
+	"strings"
+
+	"github.com/csgura/fp"
+)
+
+// VerifIsHamt tells whether base is the hash trie of this package.
+func VerifIsHamt[K, V any](base fp.MapBase[K, V]) bool {
+	_, ok := base.(*hamt[K, V])
+	return ok
+}
+
+// VerifSetBase unwraps an immutable.set[T] to the map it is built on.
+func VerifSetBase[T any](s fp.SetMinimal[T]) (fp.MapBase[T, bool], bool) {
+	switch x := s.(type) {
+	case set[T]:
+		return x.m, true
+	case *set[T]:
+		if x == nil {
+			return nil, false
+		}
+		return x.m, true
+	}
+	return nil, false
+}
+
+// VerifDump renders the real trie as an S-expression (format of dumpHamt/dumpNode in
+// lean/Oracle/Hamt.lean).
+func VerifDump[K, V any](base fp.MapBase[K, V]) string {
+	m, ok := base.(*hamt[K, V])
+	if !ok || m == nil {
+		return "(not-hamt)"
+	}
+	var sb strings.Builder
+	sb.WriteString("(hamt ")
+	sb.WriteString(strconv.Itoa(m.size))
+	sb.WriteByte(' ')
+	if m.root == nil {
+		sb.WriteString("nil")
+	} else {
+		verifDumpNode(&sb, m.root)
+	}
+	sb.WriteByte(')')
+	return sb.String()
+}
+
+func verifDumpEntries[K, V any](sb *strings.Builder, es []mapEntry[K, V]) {
+	for i := range es {
+		sb.WriteString(" (")
+		sb.WriteString(fmt.Sprint(es[i].key))
+		sb.WriteByte(' ')
+		sb.WriteString(fmt.Sprint(es[i].value))
+		sb.WriteByte(')')
+	}
+}
+
+func verifDumpNode[K, V any](sb *strings.Builder, n mapNode[K, V]) {
+	switch n := n.(type) {
+	case nil:
+		sb.WriteString("nil")
+	case *mapArrayNode[K, V]:
+		sb.WriteString("(array")
+		verifDumpEntries(sb, n.entries)
+		sb.WriteByte(')')
+	case *mapBitmapIndexedNode[K, V]:
+		sb.WriteString("(bitmap ")
+		sb.WriteString(strconv.FormatUint(uint64(n.bitmap), 10))
+		for _, c := range n.nodes {
+			sb.WriteByte(' ')
+			verifDumpNode(sb, c)
+		}
+		sb.WriteByte(')')
+	case *mapHashArrayNode[K, V]:
+		sb.WriteString("(harray ")
+		sb.WriteString(strconv.FormatUint(uint64(n.count), 10))
+		for _, c := range n.nodes {
+			if c == nil {
+				sb.WriteString(" _")
+			} else {
+				sb.WriteByte(' ')
+				verifDumpNode(sb, c)
+			}
+		}
+		sb.WriteByte(')')
+	case *mapValueNode[K, V]:
+		sb.WriteString("(value ")
+		sb.WriteString(strconv.FormatUint(uint64(n.keyHash), 10))
+		sb.WriteByte(' ')
+		sb.WriteString(fmt.Sprint(n.key))
+		sb.WriteByte(' ')
+		sb.WriteString(fmt.Sprint(n.value))
+		sb.WriteByte(')')
+	case *mapHashCollisionNode[K, V]:
+		sb.WriteString("(coll ")
+		sb.WriteString(strconv.FormatUint(uint64(n.keyHash), 10))
+		verifDumpEntries(sb, n.entries)
+		sb.WriteByte(')')
+	default:
+		sb.WriteString("(unknown-node)")
+	}
+}
+
+// verifMix is `mix` of lean/Oracle/Hamt.lean (uint64 wrap-around arithmetic).
+func verifMix(a, b uint64) uint64 { return ((a ^ b) * 1099511628211) + (a >> 29) }
+
+// VerifMix exports the digest combinator so that the harness uses the same one.
+func VerifMix(a, b uint64) uint64 { return verifMix(a, b) }
+
+// VerifDigest is the structural digest of the real trie (hamtDigest/nodeDigest of the oracle):
+// it depends on the node kinds, bitmaps, counts, slot positions, stored hashes, the order of
+// entries and the keys/values (through dk/dv).
+func VerifDigest[K, V any](base fp.MapBase[K, V], dk func(K) uint64, dv func(V) uint64) uint64 {
+	m, ok := base.(*hamt[K, V])
+	if !ok || m == nil {
+		return 0
+	}
+	r := uint64(1)
+	if m.root != nil {
+		r = verifNodeDigest(m.root, dk, dv)
+	}
+	return verifMix(verifMix(29, uint64(m.size)), r)
+}
+
+func verifNodeDigest[K, V any](n mapNode[K, V], dk func(K) uint64, dv func(V) uint64) uint64 {
+	switch n := n.(type) {
+	case *mapArrayNode[K, V]:
+		a := uint64(11)
+		for i := range n.entries {
+			a = verifMix(verifMix(a, dk(n.entries[i].key)), dv(n.entries[i].value))
+		}
+		return verifMix(a, uint64(len(n.entries)))
+	case *mapBitmapIndexedNode[K, V]:
+		a := verifMix(13, uint64(n.bitmap))
+		for _, c := range n.nodes {
+			a = verifMix(a, verifNodeDigest(c, dk, dv))
+		}
+		return a
+	case *mapHashArrayNode[K, V]:
+		a := verifMix(17, uint64(n.count))
+		for _, c := range n.nodes {
+			if c == nil {
+				a = verifMix(a, 2)
+			} else {
+				a = verifMix(a, verifNodeDigest(c, dk, dv))
+			}
+		}
+		return a
+	case *mapValueNode[K, V]:
+		return verifMix(verifMix(verifMix(19, uint64(n.keyHash)), dk(n.key)), dv(n.value))
+	case *mapHashCollisionNode[K, V]:
+		a := verifMix(23, uint64(n.keyHash))
+		for i := range n.entries {
+			a = verifMix(verifMix(a, dk(n.entries[i].key)), dv(n.entries[i].value))
+		}
+		return a
+	}
+	// nil child or unknown node kind: not a value the model can produce
+	return 0xdeadbeef
+}
+
+// VerifCheck walks the real trie and checks the structural invariants:
+//
+//   - size == number of reachable entries;
+//   - bitmap node: popcount(bitmap) == len(nodes), 1 <= len(nodes) <= 17, shift <= 30, child i sits at
+//     the slot of the i-th set bit and every key below it has hash fragment (hash>>shift)&31 equal
+//     to that bit position;
+//   - hash-array node: count == number of non-nil slots, 16 <= count <= 32, shift <= 30, same fragment
+//     condition per slot;
+//   - value node: keyHash == Hash(key);
+//   - collision node: >= 2 entries, all keys hash to keyHash, pairwise not Eqv;
+//   - array node: only as root, 1..8 entries, pairwise not Eqv;
+//   - no nil child;
+//   - all keys below a node at depth d agree on the low 5*d hash bits (the path to the node).
+//
+// A base that is not a *hamt has no structure to check (nil).
+func VerifCheck[K, V any](base fp.MapBase[K, V]) error {
+	err, _ := VerifCheckCensus(base)
+	return err
+}
+
+// VerifCensus counts the node kinds of the real trie: "array", "bitmap", "harray", "value", "coll",
+// and reports "maxdepth" (depth of the deepest node, root = 0), "maxcoll" (entries of the largest
+// collision node), "maxbitmap" (children of the largest bitmap node), "minharray" (count of the
+// smallest hash-array node, 0 if there is none), "entries" (reachable entries).
+func VerifCensus[K, V any](base fp.MapBase[K, V]) map[string]int {
+	_, c := VerifCheckCensus(base)
+	return c.Map()
+}
+
+// VerifCensusT is the census as a struct (cheap to produce on every operation).
+type VerifCensusT struct {
+	Array, Bitmap, HArray, Value, Coll      int
+	MaxDepth, MaxColl, MaxBitmap, MinHArray int
+	Entries                                 int
+	SingleBitmap                            int // bitmap nodes with exactly one child
+	RootKind                                string
+	MaxBranchDepth                          int // depth of the deepest bitmap/hash-array node
+	HArrayBelowRoot, CollDeep, BitmapDeep   int
+}
+
+func (c VerifCensusT) Map() map[string]int {
+	return map[string]int{
+		"array": c.Array, "bitmap": c.Bitmap, "harray": c.HArray, "value": c.Value, "coll": c.Coll,
+		"maxdepth": c.MaxDepth, "maxcoll": c.MaxColl, "maxbitmap": c.MaxBitmap, "minharray": c.MinHArray,
+		"entries": c.Entries, "singlebitmap": c.SingleBitmap,
+	}
+}
+
+type verifWalk[K, V any] struct {
+	h       fp.Hashable[K]
+	c       VerifCensusT
+	err     error
+	entries int
+}
+
+func (w *verifWalk[K, V]) fail(format string, a ...any) {
+	if w.err == nil {
+		w.err = fmt.Errorf(format, a...)
+	}
+}
+
+func verifLowMask(depth int) uint32 {
+	if 5*depth >= 32 {
+		return 0xffffffff
+	}
+	return (uint32(1) << (5 * uint(depth))) - 1
+}
+
+// VerifCheckCensus does the invariant walk and the census in one pass.
+func VerifCheckCensus[K, V any](base fp.MapBase[K, V]) (error, VerifCensusT) {
+	m, ok := base.(*hamt[K, V])
+	if !ok {
+		return nil, VerifCensusT{RootKind: "not-hamt"}
+	}
+	if m == nil {
+		return fmt.Errorf("nil *hamt"), VerifCensusT{RootKind: "nil-hamt"}
+	}
+	w := &verifWalk[K, V]{h: m.hasher}
+	if m.root == nil {
+		w.c.RootKind = "nil"
+	} else {
+		w.c.RootKind = verifKind(m.root)
+		w.walk(m.root, 0, 0)
+	}
+	w.c.Entries = w.entries
+	if w.entries != m.size {
+		w.fail("size field is %d but %d entries are reachable", m.size, w.entries)
+	}
+	if m.size < 0 {
+		w.fail("negative size %d", m.size)
+	}
+	return w.err, w.c
+}
+
+func verifKind[K, V any](n mapNode[K, V]) string {
+	switch n.(type) {
+	case *mapArrayNode[K, V]:
+		return "array"
+	case *mapBitmapIndexedNode[K, V]:
+		return "bitmap"
+	case *mapHashArrayNode[K, V]:
+		return "harray"
+	case *mapValueNode[K, V]:
+		return "value"
+	case *mapHashCollisionNode[K, V]:
+		return "coll"
+	case nil:
+		return "nil"
+	}
+	return "unknown"
+}
+
+// walk checks node n that sits at depth `depth` (shift = 5*depth); every key below it must have
+// hash & verifLowMask(depth) == prefix.
+func (w *verifWalk[K, V]) walk(n mapNode[K, V], depth int, prefix uint32) {
+	if depth > w.c.MaxDepth {
+		w.c.MaxDepth = depth
+	}
+	if depth > 40 {
+		w.fail("trie deeper than 40 levels")
+		return
+	}
+	shift := uint(5 * depth)
+	switch n := n.(type) {
+	case *mapArrayNode[K, V]:
+		w.c.Array++
+		w.entries += len(n.entries)
+		if depth != 0 {
+			w.fail("array node below the root (depth %d)", depth)
+		}
+		if len(n.entries) < 1 || len(n.entries) > maxArrayMapSize {
+			w.fail("array node with %d entries", len(n.entries))
+		}
+		for i := range n.entries {
+			for j := i + 1; j < len(n.entries); j++ {
+				if w.h.Eqv(n.entries[i].key, n.entries[j].key) || w.h.Eqv(n.entries[j].key, n.entries[i].key) {
+					w.fail("array node holds Eqv keys %v and %v", n.entries[i].key, n.entries[j].key)
+				}
+			}
+		}
+	case *mapBitmapIndexedNode[K, V]:
+		w.c.Bitmap++
+		if depth > w.c.MaxBranchDepth {
+			w.c.MaxBranchDepth = depth
+		}
+		if depth >= 2 {
+			w.c.BitmapDeep++
+		}
+		if len(n.nodes) > w.c.MaxBitmap {
+			w.c.MaxBitmap = len(n.nodes)
+		}
+		if len(n.nodes) == 1 {
+			w.c.SingleBitmap++
+		}
+		if bits.OnesCount32(n.bitmap) != len(n.nodes) {
+			w.fail("bitmap node at depth %d: popcount(%#x)=%d but %d children", depth, n.bitmap, bits.OnesCount32(n.bitmap), len(n.nodes))
+			// still count what is reachable
+			for _, c := range n.nodes {
+				if c != nil {
+					w.walk(c, depth+1, prefix)
+				}
+			}
+			return
+		}
+		if len(n.nodes) < 1 || len(n.nodes) > maxBitmapIndexedSize+1 {
+			w.fail("bitmap node at depth %d with %d children", depth, len(n.nodes))
+		}
+		if shift > 30 {
+			w.fail("bitmap node at shift %d", shift)
+		}
+		i := 0
+		for slot := uint(0); slot < mapNodeSize; slot++ {
+			if n.bitmap&(uint32(1)<<slot) == 0 {
+				continue
+			}
+			c := n.nodes[i]
+			i++
+			if c == nil {
+				w.fail("bitmap node at depth %d: nil child at slot %d", depth, slot)
+				continue
+			}
+			w.walk(c, depth+1, w.childPrefix(prefix, shift, slot))
+		}
+	case *mapHashArrayNode[K, V]:
+		w.c.HArray++
+		if depth > w.c.MaxBranchDepth {
+			w.c.MaxBranchDepth = depth
+		}
+		if depth >= 1 {
+			w.c.HArrayBelowRoot++
+		}
+		cnt := 0
+		for slot, c := range n.nodes {
+			if c == nil {
+				continue
+			}
+			cnt++
+			w.walk(c, depth+1, w.childPrefix(prefix, shift, uint(slot)))
+		}
+		if w.c.MinHArray == 0 || int(n.count) < w.c.MinHArray {
+			w.c.MinHArray = int(n.count)
+		}
+		if uint(cnt) != n.count {
+			w.fail("hash-array node at depth %d: count field %d but %d non-nil slots", depth, n.count, cnt)
+		}
+		if cnt < maxBitmapIndexedSize || cnt > mapNodeSize {
+			w.fail("hash-array node at depth %d with %d children", depth, cnt)
+		}
+		if shift > 30 {
+			w.fail("hash-array node at shift %d", shift)
+		}
+	case *mapValueNode[K, V]:
+		w.c.Value++
+		w.entries++
+		if hh := w.h.Hash(n.key); hh != n.keyHash {
+			w.fail("value node: keyHash %d but Hash(%v)=%d", n.keyHash, n.key, hh)
+		}
+		if n.keyHash&verifLowMask(depth) != prefix {
+			w.fail("value node for key %v (hash %#x) at depth %d is on the wrong path (path bits %#x)", n.key, n.keyHash, depth, prefix)
+		}
+	case *mapHashCollisionNode[K, V]:
+		w.c.Coll++
+		if depth >= 2 {
+			w.c.CollDeep++
+		}
+		w.entries += len(n.entries)
+		if len(n.entries) > w.c.MaxColl {
+			w.c.MaxColl = len(n.entries)
+		}
+		if len(n.entries) < 2 {
+			w.fail("collision node with %d entries", len(n.entries))
+		}
+		if n.keyHash&verifLowMask(depth) != prefix {
+			w.fail("collision node (hash %#x) at depth %d is on the wrong path (path bits %#x)", n.keyHash, depth, prefix)
+		}
+		for i := range n.entries {
+			if hh := w.h.Hash(n.entries[i].key); hh != n.keyHash {
+				w.fail("collision node: keyHash %d but Hash(%v)=%d", n.keyHash, n.entries[i].key, hh)
+			}
+			for j := i + 1; j < len(n.entries); j++ {
+				if w.h.Eqv(n.entries[i].key, n.entries[j].key) || w.h.Eqv(n.entries[j].key, n.entries[i].key) {
+					w.fail("collision node holds Eqv keys %v and %v", n.entries[i].key, n.entries[j].key)
+				}
+			}
+		}
+	case nil:
+		w.fail("nil node at depth %d", depth)
+	default:
+		w.fail("unknown node kind %T", n)
+	}
+}
+
+func (w *verifWalk[K, V]) childPrefix(prefix uint32, shift uint, slot uint) uint32 {
+	if shift >= 32 {
+		return prefix
+	}
+	if uint64(slot)<<shift > 0xffffffff {
+		// (hash>>shift)&31 cannot have this value: nothing can legitimately live in this slot
+		w.fail("child in slot %d of a branch node at shift %d: no 32-bit hash has that fragment", slot, shift)
+	}
+	return prefix | (uint32(slot) << shift)
+}
